@@ -216,12 +216,58 @@ def evaluate(case):
 
 def shards(tier, seed):
     n = 4000 if tier == "thorough" else 400
-    return [{"seed": seed, "lo": i * n, "hi": (i + 1) * n} for i in range(16)]
+    specs = [{"seed": seed, "lo": i * n, "hi": (i + 1) * n} for i in range(16)]
+    m = 250 if tier == "thorough" else 12
+    for i in range(16):
+        specs.append({"seed": seed, "lo": i * m, "hi": (i + 1) * m, "every_position": True})
+    return specs
+
+
+EVERY = ["<x y z>", "%foo x", "k ${x", "nosuchkey-zz v", "<nosuchtype/>", "</nosuchtype>", "%define 1x v"]
+
+
+def run_every_position(spec, res, counters):
+    """For each accepted text: every insertable line of EVERY at EVERY line position, unsplit and
+    split into includes (complete for the text; texts are sampled)."""
+    for i in range(spec["lo"], spec["hi"]):
+        rng = loadcheck.case_rng(spec["seed"] + 8888, i)
+        ast = gen.gen_schema(rng)
+        sm = refload.compile_schema(ast)
+        try:
+            schema, xml = loadcheck.load_schema(ast)
+        except Exception:  # noqa
+            continue
+        text = gen.gen_text(rng, sm, 0, budget=14)
+        base = refload.ref_load(ast, {MAIN: text}, MAIN, sm=sm)
+        if base.kind != "accept" or not text.strip():
+            continue
+        lines = split_lines(text)
+        counters["every-position-texts"] += 1
+        for pos in range(len(lines) + 1):
+            for bad in EVERY:
+                mutated = join(lines[:pos] + ["  " + bad] + lines[pos:])
+                if rng.random() < 0.5:
+                    resources, _c = gen.cut_includes(rng, mutated, MAIN, ncuts=rng.choice([1, 2]))
+                    mode = rng.choice(["mem", "files"])
+                else:
+                    resources, mode = {MAIN: mutated}, rng.choice(["mem", "nourl"])
+                res.evaluations += 1
+                ref, got, fl = compare(ast, sm, schema, resources, MAIN, mode)
+                counters["every-position:" + ref.kind] += 1
+                if ref.kind == "reject" and ref.line_promised and (len(resources) > 1 or (ref.lineno or 0) > 3):
+                    res.nontrivial(key=[xml, sorted(resources.items())])
+                for sig, d in fl:
+                    res.fail(sig, {"schema": ast, "resources": resources, "main": MAIN, "mode": mode}, d)
+    res.exhaustive_parts.append("for each sampled accepted text: each of %d faulty lines inserted at every line position" % len(EVERY))
 
 
 def run_shard(spec):
     res = Result()
     counters = collections.Counter()
+    if spec.get("every_position"):
+        run_every_position(spec, res, counters)
+        res.counters.update(counters)
+        return res
     for i in range(spec["lo"], spec["hi"]):
         rng = loadcheck.case_rng(spec["seed"] + 7777, i)
         ast = gen.gen_schema(rng)
